@@ -9,8 +9,9 @@ from harness import common, tlc
 
 
 def registry():
-    from harness.props import reqwait, errorclass, session, dispatch, handshake, versioning, framing, framing_out, lifecycle, host, http, sse, codec, models
+    from harness.props import reqwait, errorclass, session, dispatch, handshake, versioning, framing, framing_out, lifecycle, host, http, sse, codec, models, carrier
     return {
+        "C15": carrier.check_c15,
         "C02": models.check_c02,
         "C09": models.check_c09,
         "C10": models.check_c10,
